@@ -105,7 +105,26 @@ type rlCase struct {
 	CleanupS                                      int       `json:"cleanup_s"`
 	Abusive                                       bool      `json:"abusive"` // C19 shape: ip 0 floods
 	Events                                        []rlEvent `json:"events"`
+	// Crowd > 0: before the events, this many further clients (one address and one connection each) send one request
+	// each at the start instant, then one second passes. Thousands of addresses are an ordinary population for an
+	// NFS server; whatever the limiter does to keep its tables small may not couple unrelated clients.
+	Crowd int `json:"crowd,omitempty"`
 }
+
+// expand returns the crowd prefix followed by the case's events.
+func (c rlCase) expand() []rlEvent {
+	if c.Crowd <= 0 {
+		return c.Events
+	}
+	out := make([]rlEvent, 0, c.Crowd+1+len(c.Events))
+	for i := 0; i < c.Crowd; i++ {
+		out = append(out, rlEvent{Kind: "req", IP: 1000 + i})
+	}
+	out = append(out, rlEvent{Adv: 5, Kind: "close", IP: 999}) // one second passes (closing a connection nobody opened is a no-op)
+	return append(out, c.Events...)
+}
+
+func rlIP(n int) string { return fmt.Sprintf("10.%d.%d.%d", n>>16&255, n>>8&255, n&255) }
 
 var rlAdvances = []time.Duration{0, 0, 1, time.Millisecond, time.Second / 3, time.Second, 7 * time.Second, 90 * time.Second, 2 * time.Hour}
 var rlOps = []absnfs.OperationType{absnfs.OpTypeReadLarge, absnfs.OpTypeWriteLarge, absnfs.OpTypeReaddir, absnfs.OpTypeMount}
@@ -145,6 +164,13 @@ func genRL(abusive bool) func(t *rapid.T) rlCase {
 			}
 			c.Events = append(c.Events, ev)
 		}
+		crowdOdds := 40
+		if abusive {
+			crowdOdds = 12
+		}
+		if rapid.IntRange(0, crowdOdds-1).Draw(t, "crowded") == 0 {
+			c.Crowd = pick(t, "crowd", 300, 300, 1100, 1100, 2100, 4200)
+		}
 		return c
 	}
 }
@@ -161,11 +187,12 @@ func rlRun(c rlCase, cleanup time.Duration, start time.Time) []bool {
 	vclock = start
 	vclockMu.Unlock()
 	rl := absnfs.NewRateLimiter(c.config(cleanup))
-	out := make([]bool, len(c.Events))
+	evs := c.expand()
+	out := make([]bool, len(evs))
 	connGen := map[string]int{}
-	for i, ev := range c.Events {
+	for i, ev := range evs {
 		vadvance(rlAdvances[ev.Adv])
-		ip := fmt.Sprintf("10.0.0.%d", ev.IP)
+		ip := rlIP(ev.IP)
 		slot := fmt.Sprintf("%d-%d", ev.IP, ev.Conn)
 		if ev.Kind == "close" {
 			// the connection handler's exit path; connection ids are never reused by the server
@@ -198,7 +225,7 @@ func runRL(tb stat.TB, c rlCase, id, check string) {
 	abusiveRefused, compliantAfterAbuse := false, false
 	closes := 0
 	opRates := []float64{float64(c.RL), float64(c.WL), float64(c.RD), float64(c.MountPM) / 60}
-	for i, ev := range c.Events {
+	for i, ev := range c.expand() {
 		now = now.Add(rlAdvances[ev.Adv])
 		got := dec[i]
 		what := fmt.Sprintf("event#%d %s ip=%d conn=%d op=%d at +%v", i, ev.Kind, ev.IP, ev.Conn, ev.Op, now.Sub(start))
@@ -207,7 +234,9 @@ func runRL(tb stat.TB, c rlCase, id, check string) {
 			slot := fmt.Sprintf("%d-%d", ev.IP, ev.Conn)
 			delete(perConn, slot)
 			delete(admConn, slot)
-			closes++
+			if ev.IP != 999 {
+				closes++
+			}
 			continue
 		}
 		if !got {
@@ -327,6 +356,9 @@ func runRL(tb stat.TB, c rlCase, id, check string) {
 	}
 	if closes > 0 {
 		stat.Label("connection_closed_and_reopened", 1)
+	}
+	if c.Crowd > 0 {
+		stat.Label(fmt.Sprintf("crowd_of_%d_addresses_first", c.Crowd), 1)
 	}
 	nt := sawRefusal && admittedAfterRefusal
 	if id == "C19" {
